@@ -29,6 +29,9 @@ type ModelRunOptions struct {
 	Names     Names
 	StackOpts stacks.Options
 	Tolerate  Tolerate
+	// Side builds the side that executes operations for an (re)opened instance
+	// (default: prog.NewStorageSide on the instance's storage).
+	Side func(inst *stacks.Instance) prog.Side
 	// Remap returns the layout to reopen with at a remap step.
 	Remap func(cur stacks.Layout) stacks.Layout
 	// AfterMaint is called after a maintenance step (gc/reopen/remap) with the (possibly new) instance.
@@ -88,8 +91,13 @@ func RunModelProgram(env *ev.Env, c ProgCase, opt ModelRunOptions) (o ev.Outcome
 			inst.Close()
 		}
 	}()
-	side := prog.NewStorageSide(inst.Storage)
-	s := NewSession(names, side)
+	mkSide := func(i *stacks.Instance) prog.Side {
+		if opt.Side != nil {
+			return opt.Side(i)
+		}
+		return prog.NewStorageSide(i.Storage)
+	}
+	s := NewSession(names, mkSide(inst))
 	if opt.Setup != nil {
 		opt.Setup(s)
 	}
@@ -150,7 +158,7 @@ func RunModelProgram(env *ev.Env, c ProgCase, opt ModelRunOptions) (o ev.Outcome
 				o.Failf("step %d: reopen failed: %v", i, err)
 				return
 			}
-			side.S = inst.Storage
+			s.Sides[0] = mkSide(inst)
 			st.Reopens++
 			if opt.AfterMaint != nil && opt.AfterMaint(s, inst, op, &o) {
 				return
